@@ -211,6 +211,7 @@ def c10(run):
 
 @check("C03")
 def c03(run):
+    run.level = "translation_validation"
     run.rule = ("impl->spec: seeded random well-typed programs of the core fragment (depth<=6), boundary-biased literals, generated context; "
                 "value or error class and host log must equal the specification's; non-trivial = at least 3 AST nodes")
     mc_vectors(run, "CelEvalMC_C03_arith")
@@ -267,3 +268,18 @@ def c09(run):
     validate_trace(run, "CelOpTrace", path, sample_key=op_sample,
                    nontrivial=lambda c: c["a"]["t"] != c["b"].get("t") or c["a"] != c["b"],
                    what="relation / membership / min / max outcome differs from the exact semantics of CelValue!Cmp / Eq")
+
+
+@check("C14")
+def c14(run):
+    run.rule = ("model: CelMapMC -- every key-insertion sequence up to 4 keys over the 8-key alphabet and every query key (twins included): the query forms are "
+                "functions of one HasKey, literals keep exactly the written entries, list indexing in/out of range, additivity of size; "
+                "impl->spec: every map with <=4 distinct keys of the alphabet (quick: all with <=2, half of the rest) x 16 query keys x the query forms "
+                "k in m, m.contains(k), m[k], m.k, has(m.k) as variables and as literals; every list of length <=5 x every index in -2..len+1 and the i64 extremes; "
+                "random strings/lists for the additive laws; non-trivial = the map or list is non-empty")
+    model_check(run, "CelMapMC", workers=12)
+    run.exhaustive = True
+    path = drive_ops(run, "c14")
+    validate_trace(run, "CelOpTrace", path, sample_key=op_sample,
+                   nontrivial=lambda c: bool(c["a"].get("e") or c["b"].get("e")),
+                   what="map / list / string operation disagrees with the specification (all query forms are defined from one HasKey)")
